@@ -94,6 +94,7 @@ class _:
         'seq-and-ack-are-seqnums': lambda result: result.seq.cls is not None and result.ack.cls is not None,
     }
     modifies = []
+    returns = lambda E, args: make_header(E, 'parsed_%d' % E.ctx.counter)
 
 
 def type_known(datagram):
